@@ -157,6 +157,79 @@ def c_gmm(ctx, case):
     ctx.stat_max("kappa", kap)
 
 
+def g_map_starved(draw):
+    c = gen.gmm_training_case(draw, max_rows=24, min_rows=3)
+    init, X = c["init"], c["X"]
+    C, F = init["C"], init["F"]
+    r = gen.rng(draw)
+    c["K"] = gen.integer(draw, 1, 3)
+    a, b, mode = affine(draw, F, c["scales"], 1e2)
+    c.update(a=a, b=b, mode=mode)
+    c["map_mode"] = gen.choice(draw, ["fixed", "fixed", "reynolds"])
+    c["relevance"] = float(10.0 ** gen.integer(draw, -1, 2)) if c["map_mode"] == "reynolds" else None
+    c["alpha"] = float(gen.choice(draw, [0.5, 1.0, 0.25, draw(gen.st.floats(0.05, 1.0))]))
+    c["upd"] = [True, False, gen.boolean(draw)]
+    c["starved"] = None
+    if C >= 2:
+        # one prior component so far from every row that its responsibility mass is tiny but positive (9..38 sd)
+        # or exactly zero (1e3 sd)
+        j = gen.integer(draw, 0, C - 1)
+        far = gen.choice(draw, ["tiny", "tiny", "zero"])
+        s = r.uniform(9, 38) if far == "tiny" else 1e3
+        sd = np.sqrt(init["variances"][j])
+        f = gen.integer(draw, 0, F - 1)
+        m = np.array(init["means"], copy=True)
+        edge = X[:, f].max() if gen.boolean(draw) else X[:, f].min()
+        m[j] = X[r.integers(0, X.shape[0])]
+        m[j, f] = edge + (1.0 if edge == X[:, f].max() else -1.0) * s * sd[f]
+        init["means"] = m
+        c["starved"] = far
+    return c
+
+
+@REG.obligation("map_means_equivariant_with_starved_components", g_map_starved, quick=300, thorough=6000)
+def c_map_starved(ctx, case):
+    """MAP adaptation of means (and weights), Reynolds or fixed ratio, with a prior component that receives a tiny
+    or zero responsibility mass: the adapted means still follow x -> a*x + b and the weights are unchanged (a
+    component without evidence keeps the PRIOR mean, which follows the features too)."""
+    from bob.learn.em import GMMMachine
+
+    X, init, a, b, upd = case["X"], case["init"], case["a"], case["b"], case["upd"]
+    init2 = tparams(init, a, b)
+    X2 = a[None, :] * X + b[None, :]
+
+    def run(ini, XX):
+        g = GMMMachine(ini["C"], trainer="map", ubm=sut.make_gmm(ini), map_relevance_factor=case["relevance"],
+                       map_alpha=case["alpha"], convergence_threshold=None, max_fitting_steps=case["K"],
+                       update_means=True, update_variances=False, update_weights=upd[2])
+        g.fit(XX)
+        return g
+
+    # exclusion: a responsibility mass within a factor 10 of the count floor (the switch "no evidence -> prior" is a
+    # discontinuity; on which side a mass of about machine epsilon falls is a matter of rounding)
+    for ini, XX in ((init, X), (init2, X2)):
+        models, _ = ref.map_trajectory(XX, (ini["weights"], ini["means"], ini["variances"]), upd, case["K"], case["relevance"],
+                                       case["alpha"], EPS, ini["floors"])
+        for (w, mu, var) in models[:-1]:
+            n = ref.gmm_stats(XX, w, mu, var)["n"]
+            if ((n > 0.1 * EPS) & (n < 10 * EPS)).any():
+                ctx.discard("responsibility mass at the count floor")
+    g1, g2 = run(init, X), run(init2, X2)
+    w1, m1, _ = sut.params_of(g1)
+    w2, m2, _ = sut.params_of(g2)
+    n0 = ref.gmm_stats(X, init["weights"], init["means"], init["variances"])["n"]
+    tiny = bool(((n0 > 0) & (n0 < 0.1 * EPS)).any())
+    ctx.note(tiny and case["map_mode"] == "fixed" and bool((np.abs(b) > 0).any()), "map:" + case["map_mode"],
+             "starved:%s" % case["starved"], "tiny-positive-mass" if tiny else None, "zero-mass" if (n0 == 0).any() else None,
+             "mode:" + case["mode"])
+    kap = kappa(a, b, X)
+    tol = 1e-8 * max(1.0, kap**2) * 10 ** (case["K"] - 1)
+    sd = X.std(axis=0) + 1e-300
+    ctx.close(w2, w1, "weights unchanged (MAP, starved component)", rtol=tol, atol=tol * 1e-3)
+    ctx.close((m2 - b[None, :]) / a[None, :], m1, "means map to a*mu+b (MAP, starved component)", rtol=0,
+              atol=tol * float(sd.max()) * 10 + tol * float(np.abs(m1).max()))
+
+
 # ---------------------------------------------------------------------------- log-likelihood shift
 
 def g_ll(draw):
